@@ -9,6 +9,7 @@ package main
 // check computed as a least fixpoint over the repository's call graph, not a solver obligation).
 
 import (
+	"go/token"
 	"go/types"
 	"strings"
 
@@ -18,6 +19,7 @@ import (
 type frameSummary struct {
 	bad    bool         // writes foreign memory / calls unknown code / concurrency
 	writes map[int]bool // parameter indices whose pointee (or backing array / map) may be written
+	deep   map[int]bool // parameter indices p where memory reached through a value LOADED from *p may be written ((*p)[*])
 }
 
 type directInfo struct{ bad bool }
@@ -41,7 +43,7 @@ func (e *Engine) computeSummaries() {
 	for fn := range ssautilAllFunctions(e.prog) {
 		if fn != nil && len(fn.Blocks) > 0 && e.moduleFunc(fn) {
 			fns = append(fns, fn)
-			e.summaries[fn] = &frameSummary{writes: map[int]bool{}}
+			e.summaries[fn] = &frameSummary{writes: map[int]bool{}, deep: map[int]bool{}}
 		}
 	}
 	for changed := true; changed; {
@@ -51,7 +53,7 @@ func (e *Engine) computeSummaries() {
 			if s.bad {
 				continue
 			}
-			nb, nw := e.summarise(fn)
+			nb, nw, nd := e.summarise(fn)
 			if nb {
 				s.bad = true
 				changed = true
@@ -60,6 +62,12 @@ func (e *Engine) computeSummaries() {
 			for i := range nw {
 				if !s.writes[i] {
 					s.writes[i] = true
+					changed = true
+				}
+			}
+			for i := range nd {
+				if !s.deep[i] {
+					s.deep[i] = true
 					changed = true
 				}
 			}
@@ -74,7 +82,7 @@ func (e *Engine) computeSummaries() {
 func (e *Engine) inferNoMods(fn *ssa.Function) bool {
 	e.computeSummaries()
 	s := e.summaries[fn]
-	return s != nil && !s.bad && len(s.writes) == 0
+	return s != nil && !s.bad && len(s.writes) == 0 && len(s.deep) == 0
 }
 
 // classify the root of a written object: "local", param index (>=0), or foreign (-2)
@@ -124,9 +132,28 @@ func classifyRoot(fn *ssa.Function, v ssa.Value, seen map[ssa.Value]bool) (local
 		}
 	case *ssa.FieldAddr, *ssa.IndexAddr:
 		return classifyRoot(fn, storeRoot(v), seen)
+	case *ssa.UnOp:
+		// a value loaded through a pointer parameter (e.g. the slice *p): memory one level below the parameter,
+		// reported as deepParam+i. Loads from anything else are foreign.
+		if x.Op == token.MUL {
+			l, ps, f := classifyRoot(fn, storeRoot(x.X), seen)
+			if f || l || len(ps) == 0 {
+				return false, nil, true
+			}
+			var out []int
+			for _, p := range ps {
+				if p >= deepParam {
+					return false, nil, true
+				}
+				out = append(out, deepParam+p)
+			}
+			return false, out, false
+		}
 	}
 	return false, nil, true
 }
+
+const deepParam = 1000
 
 // sliceBase: the object a slicing expression is taken from
 func sliceBase(v ssa.Value) ssa.Value {
@@ -136,8 +163,10 @@ func sliceBase(v ssa.Value) ssa.Value {
 	return v
 }
 
-func (e *Engine) summarise(fn *ssa.Function) (bad bool, writes map[int]bool) {
+func (e *Engine) summarise(fn *ssa.Function) (bad bool, writes, deep map[int]bool) {
 	writes = map[int]bool{}
+	deep = map[int]bool{}
+	calleeDeep := false // the callee writes one level below what its parameter designates
 	note := func(v ssa.Value) bool {
 		l, ps, f := classifyRoot(fn, v, map[ssa.Value]bool{})
 		if f {
@@ -145,7 +174,16 @@ func (e *Engine) summarise(fn *ssa.Function) (bad bool, writes map[int]bool) {
 		}
 		_ = l
 		for _, p := range ps {
-			writes[p] = true
+			switch {
+			case p >= deepParam && calleeDeep:
+				return false // two levels below a parameter: not tracked
+			case p >= deepParam:
+				deep[p-deepParam] = true
+			case calleeDeep:
+				deep[p] = true
+			default:
+				writes[p] = true
+			}
 		}
 		return true
 	}
@@ -154,34 +192,34 @@ func (e *Engine) summarise(fn *ssa.Function) (bad bool, writes map[int]bool) {
 			switch x := in.(type) {
 			case *ssa.Store:
 				if !note(storeRoot(x.Addr)) {
-					return true, nil
+					return true, nil, nil
 				}
 			case *ssa.MapUpdate:
 				if !note(x.Map) {
-					return true, nil
+					return true, nil, nil
 				}
 			case *ssa.Send, *ssa.Go, *ssa.Defer, *ssa.Select:
-				return true, nil
+				return true, nil, nil
 			case *ssa.Call:
 				cc := x.Common()
 				if b, ok := cc.Value.(*ssa.Builtin); ok {
 					switch b.Name() {
 					case "append", "copy":
 						if !note(cc.Args[0]) {
-							return true, nil
+							return true, nil, nil
 						}
 					case "delete", "clear":
 						if !note(cc.Args[0]) {
-							return true, nil
+							return true, nil, nil
 						}
 					case "close":
-						return true, nil
+						return true, nil, nil
 					}
 					continue
 				}
 				callee := cc.StaticCallee()
 				if callee == nil {
-					return true, nil
+					return true, nil, nil
 				}
 				name := fullName(callee)
 				if pureExternal(name) {
@@ -192,17 +230,19 @@ func (e *Engine) summarise(fn *ssa.Function) (bad bool, writes map[int]bool) {
 				}
 				if m, ok := builtinModels[name]; ok {
 					if m.mods != nil ||strings.Contains(name, "sync.Cond") || strings.Contains(name, "sync.Pool") {
-						return true, nil
+						return true, nil, nil
 					}
 					continue
 				}
 				if con := e.contractFor(callee); con != nil && !con.Swept {
 					if con.ModAll {
-						return true, nil
+						return true, nil, nil
 					}
 					// `modifies p...`: the callee writes what its parameter p designates
 					for _, item := range con.Modifies {
-						root := strings.TrimPrefix(item, "*")
+						calleeDeep = strings.HasPrefix(item, "(*")
+						root := strings.TrimPrefix(strings.TrimPrefix(item, "(*"), "*")
+						root = strings.Replace(root, ")", "", 1)
 						if i := strings.IndexAny(root, ".["); i >= 0 {
 							root = root[:i]
 						}
@@ -215,24 +255,27 @@ func (e *Engine) summarise(fn *ssa.Function) (bad bool, writes map[int]bool) {
 								if _, isPtr := a.Type().Underlying().(*types.Pointer); isPtr {
 									r = storeRoot(a)
 								}
-								if !note(r) {
-									return true, nil
+								ok := note(r)
+								calleeDeep = false
+								if !ok {
+									return true, nil, nil
 								}
 							}
 						}
+						calleeDeep = false
 						if !found {
-							return true, nil
+							return true, nil, nil
 						}
 					}
 					continue
 				}
 				cs := e.summaries[callee]
 				if cs == nil || cs.bad {
-					return true, nil
+					return true, nil, nil
 				}
 				for i := range cs.writes {
 					if i >= len(cc.Args) {
-						return true, nil
+						return true, nil, nil
 					}
 					a := cc.Args[i]
 					// the callee writes what its i-th parameter designates: a pointer, slice or map
@@ -241,11 +284,47 @@ func (e *Engine) summarise(fn *ssa.Function) (bad bool, writes map[int]bool) {
 						root = storeRoot(a)
 					}
 					if !note(root) {
-						return true, nil
+						return true, nil, nil
+					}
+				}
+				for i := range cs.deep {
+					if i >= len(cc.Args) {
+						return true, nil, nil
+					}
+					a := cc.Args[i]
+					var root ssa.Value = a
+					if _, isPtr := a.Type().Underlying().(*types.Pointer); isPtr {
+						root = storeRoot(a)
+					}
+					calleeDeep = true
+					ok := note(root)
+					calleeDeep = false
+					if !ok {
+						return true, nil, nil
 					}
 				}
 			}
 		}
 	}
-	return false, writes
+	return false, writes, deep
+}
+
+// resultIsLocal: on every return path the i-th result is a slice rooted in the function's own allocations
+// (make, append of such a slice, nil).
+func resultIsLocal(fn *ssa.Function, i int) bool {
+	found := false
+	for _, b := range fn.Blocks {
+		for _, in := range b.Instrs {
+			ret, ok := in.(*ssa.Return)
+			if !ok || i >= len(ret.Results) {
+				continue
+			}
+			found = true
+			l, ps, f := classifyRoot(fn, ret.Results[i], map[ssa.Value]bool{})
+			if f || !l || len(ps) > 0 {
+				return false
+			}
+		}
+	}
+	return found
 }
